@@ -67,6 +67,8 @@ func checkC02(c *Ctx) {
 	c.Rule("C02-R8", "the wait-for-more gate counts one increment per parser call, each under that parser's 'partial' result")
 	c.Rule("C02-R9", "a parser consumes exactly the bytes it matched: fixed read counts agree with the scan index at the match, countdown loops start at the scan index, prefix loops run to len(P) under HasPrefix(input, P), decoder loops run to nSrc, ReadBytes(d) only where the current byte is d")
 	c.Rule("C02-R10", "an input chunk handed to the parser goroutine over a channel has a backing array allocated for that chunk alone (every cycle through the send passes through the allocation)")
+	c.Rule("C02-R11", "a parser that looks at several candidates only ever raises its 'partial' answer (constants, or a test made where the flag is still false): the answer cannot depend on the order of the candidates")
+	c.Expect("C02-R11", 1)
 	c.Expect("C02-R9", 8)
 	c.Expect("C02-R10", 1)
 	c.Expect("C02-R1", 6)
@@ -142,6 +144,7 @@ func checkC02(c *Ctx) {
 		c02Prefix(c, p, pi)
 		c02Index(c, p, pi.fn, parsers)
 		c02Consumption(c, p, pi)
+		c02PartialAccumulates(c, p, pi)
 	}
 	checkChunkOwnership(c, p, "C02-R10")
 	collect := collectLoopFn(p)
